@@ -5,22 +5,22 @@ ROOT = os.path.dirname(os.path.dirname(os.path.abspath(__file__)))
 P = "engine P: contracts on the real functions (source re-read from /repo on every run), symbolic execution to verification conditions, z3 5.1 (cvc5 for z3-unknowns) - unbounded"
 B = "engine B: the same kind of contracts checked at run time on the real functions over exhaustively enumerated small scopes with an independent oracle - BOUNDED stand-in, never counted as proved"
 KERNELS = {
- "C01": "NumpyFileReader.read_chunk/_get_buffer/__add_newline_to_end/__read_raw_chunk byte conservation (loop invariant; seek and gzip-carry modes; with and without entry marker) for an abstract cut function; DelimitedBuffer.from_raw_buffer cut point (last newline)",
+ "C01": "NumpyFileReader.read_chunk/_get_buffer/__add_newline_to_end/__read_raw_chunk byte conservation (loop invariant; seek and gzip-carry modes; with and without entry marker) for an abstract cut function, incl. the line-number offset of a propagated format error; cut points of DelimitedBuffer.from_raw_buffer (last newline), OneLineBuffer.from_raw_buffer (two-line FASTA, FASTQ: last newline completing an entry) and MultiLineFastaBuffer.from_raw_buffer (last '>' at a line start)",
  "C02": "DelimitedBuffer._get_buffer_extractor / _modify_for_carriage_return: the field table (starts, ends, CR exclusion, entry starts/ends) for any rows x columns, LF and CRLF",
- "C03": "MultiLineFastaBuffer.from_data wrapping arithmetic and line table for any width W>=1 (prefix of the function)",
+ "C03": "MultiLineFastaBuffer.from_data wrapping arithmetic and line table for any width W>=1 (prefix of the function); NpBufferedWriter.write: header emitted iff due and the class invariant 'flag set iff header emitted' (8 instances) - hence the header is written exactly once over any sequence of writes",
  "C04": "TextThroughputExtractor._make_contigous / __getitem__ / get_fields_by_range / concatenate (2 and 3 buffers): rows and fields kept, offsets re-based",
- "C06": "AlphabetEncoding._initialize for an arbitrary alphabet of 1, 2 and 4 symbolic symbols against the spec lookup for every byte",
+ "C06": "AlphabetEncoding._initialize for an arbitrary alphabet of 1, 2 and 4 symbolic symbols against the spec lookup for every byte; _encode (raises iff a foreign byte) and _decode against that contract",
  "C07": "strops.split (single separator): rows are exactly the text between consecutive separators (telescoping lemma by induction)",
  "C08": "extend_to_size and clip (pointwise clauses)",
  "C09": "GenomicRunLengthArray.from_intervals event/value layout for all four prefix/postfix combinations",
- "C10": "GlobalOffset: to_local_coordinates is the inverse of from_local_coordinates on valid positions, bounds errors, start_ends_from_intervals, to_local_interval never attributes a boundary-crossing interval",
+ "C10": "GlobalOffset: to_local_coordinates is the inverse of from_local_coordinates on valid positions, bounds errors, start_ends_from_intervals, to_local_interval never attributes a boundary-crossing interval; GenomicLocationGlobal.get_windows (flank / window_size) and GenomicIntervalsFull.clip stay inside the location's own chromosome",
  "C11": "_chunk_entries generator: order and content preserved, every in-loop chunk has exactly n entries (obligations at every yield)",
  "C12": "GenomeContext._included_groups and GenomeContext.iter_chromosomes as generators with obligations at every yield: j-th table is the group named order(j) or empty, each group consumed once in order, completion implies nothing left over",
- "C13": "trimming/row-locality arithmetic of RollableFunction.rolling_window and kmers.convolution for ragged input and any window >= 1",
- "C14": "ASCII complement table (both cases, involution), complement(ragged), get_reverse_complement(ragged)",
- "C15": "OneLineBuffer._validate (2 and 4 lines per entry) and FastQBuffer._validate: raises iff a record lacks its marker / '+' line, line number of the FIRST offender",
- "C16": "BamBufferExtractor fixed-offset fields and derived variable-field offsets against the SAM spec table, split_cigar, BamBuffer._find_starts (block_size chaining, maximality)",
- "C17": "IndexedFasta.__getitem__ (row/column reshape against the faidx layout predicate), get_contig_lengths",
+ "C13": "trimming/row-locality arithmetic of RollableFunction.rolling_window and kmers.convolution for ragged input and any window >= 1; KmerEncoder.__call__/inverse: code = little-endian base-|A| number and renders back, for 14 concrete (|A|, k) pairs (each a full-domain proof)",
+ "C14": "ASCII complement table (both cases, involution), complement(ragged), get_reverse_complement(ragged), WindowFunction.windowed: translation goes codon by codon within a row (row starts are multiples of 3: lemma by induction)",
+ "C15": "OneLineBuffer._validate (2 and 4 lines per entry) and FastQBuffer._validate: raises iff a record lacks its marker / '+' line, line number of the FIRST offender; NumpyFileReader.read_chunk adds the chunk's base line exactly once to a propagated format error",
+ "C16": "BamBufferExtractor fixed-offset fields and derived variable-field offsets against the SAM spec table, split_cigar, BamBuffer._find_starts (block_size chaining, maximality), count_reference_length (exactly M,D,N,=,X), alignment_to_interval (stop, strand bit 0x10)",
+ "C17": "IndexedFasta.__getitem__ (row/column reshape against the faidx layout predicate), get_contig_lengths, create_index offset accumulation (2 and 3 chunks), get_interval_sequences: row lengths, allocation offsets, deleted positions = newline bytes (the content clause itself is bounded)",
  "C18": "the exact decimal digit count (_n_decimal_digits) for every magnitude below 2**63 (19-case split over the real table)",
  "C20": "frame conditions (heap model): str_to_int, str_to_float (callees that overwrite their argument only receive copies), merge_intervals",
 }
